@@ -57,6 +57,19 @@ PINS = [
     'mesonbuild.mintro:write_intro_info',
     'mesonbuild.dependencies.base:Dependency.__init__',
     'mesonbuild.depfile:DepFile.get_all_dependencies',
+    'mesonbuild.modules.pkgconfig:DependenciesHelper',
+    'mesonbuild.modules.pkgconfig:PkgConfigModule.generate',
+    'mesonbuild.modules.cmake:CmakeModule.configure_package_config_file',
+    'mesonbuild.modules.cmake:CmakeModule.write_basic_package_version_file',
+    'mesonbuild.modules.keyval:KeyvalModule.load',
+    'mesonbuild.modules.sourceset:SourceSetImpl.apply_method',
+    'mesonbuild.modules.python:PythonInstallation.install_sources_method',
+    'mesonbuild.mintro:list_buildsystem_files',
+    'mesonbuild.dependencies.detect:get_dep_identifier',
+    'mesonbuild.build:GeneratedList',
+    'mesonbuild.build:BuildTarget.get_used_stdlib_args',
+    'mesonbuild.backend.ninjabackend:NinjaBackend.generate_dependency_scan_target',
+    'mesonbuild.utils.core:EnvironmentVariables.get_env',
     'mesonbuild.compilers.compilers:CompileResult',
     'mesonbuild.compilers.compilers:RunResult',
     'mesonbuild.compilers.compilers:Compiler.cached_compile',
@@ -205,12 +218,12 @@ def gen_cases(ctx: Ctx, mult: int = 1, only: T.Optional[T.Set[str]] = None) -> T
                 'rule': rng.choice(['phony', 'cc', 'c_COMPILER', 'CUSTOM_COMMAND']), 'rspable': rng.random() < 0.5, 'ins': ins}
         group('buildline', [dict(base, deps=pd, orderdeps=po)
                             for pd, po in zip(perms(rng, deps, V), perms(rng, od, V))])
-    # EnvironmentVariables.hash
+    # EnvironmentVariables.hash: operations are an ordered list (program order); unset_vars is a set
     for _ in range(n(100, 1200)):
-        keys = distinct(rng, rng.randint(0, 6), lambda: rstr(rng, 4, 0) or 'K')
-        per_key = {k: [[rng.choice(['set', 'append', 'prepend']), k, rstr(rng, 4, 0)] for _ in range(rng.choice([1, 1, 2]))]
-                   for k in keys}
-        group('envhash', [{'ops': [op for k in p for op in per_key[k]]} for p in perms(rng, keys, V)])
+        keys = distinct(rng, rng.randint(0, 4), lambda: rstr(rng, 4, 0) or 'K')
+        ops = [[rng.choice(['set', 'append', 'prepend']), k, rstr(rng, 4, 0)] for k in keys for _r in range(rng.choice([1, 1, 2]))]
+        unset = [u for u in distinct(rng, rng.randint(0, 5), lambda: 'U' + rstr(rng, 3, 0).replace(' ', '_')) if u not in keys]
+        group('envhash', [{'ops': ops, 'unset': p} for p in perms(rng, unset, V)])
     # _dump_c_header
     for _ in range(n(150, 2000)):
         keys = distinct(rng, rng.randint(0, 6), lambda: rstr(rng, 5, 0.02))
@@ -281,6 +294,16 @@ def gen_cases(ctx: Ctx, mult: int = 1, only: T.Optional[T.Set[str]] = None) -> T
             pr = [(tg, rng.sample(dp, len(dp))) for tg, dp in pr]
             variants.append({'lines': render(pr), 'name': name})
         group('depfile', variants)
+    # pkg-config Requires lines: packages carrying several version constraints (a set per package)
+    pk = ['libzeta', 'libalpha', 'mid', 'glib-2.0', 'x']
+    vpool = ['>=1.2', '<2.0', '!=1.5', '=3', '==4', '>0', '<=9', '1.0', '>= 1.2']
+    for _ in range(n(120, 1200)):
+        reqs = rng.sample(pk, rng.randint(1, 4))
+        vr = [[nm, rng.sample(vpool, rng.randint(0, 4))] for nm in rng.sample(pk, rng.randint(0, 4))]
+        variants = []
+        for _v in range(V):
+            variants.append({'reqs': reqs, 'vreqs': [[nm, rng.sample(vs, len(vs))] for nm, vs in vr]})
+        group('formatreqs', variants)
     # cached compiler-check results: pickle round trip + the stderr-reading verdict of GNU-like compilers
     notes = ["cc1: warning: command-line option '-Wx' is valid for C++/ObjC++ but not for C\n",
              "cc1plus: warning: command-line option '-Wx' is valid for C/ObjC but not for C++\n",
@@ -445,7 +468,7 @@ def inproc_layer(ctx: Ctx, cases: T.List[dict], seeds: T.List[str], compare_mode
             ctx.tag('error:' + r['impl'].split(':')[1])
         if a != r['impl']:
             ctx.disagreement({'kind': c['kind'], 'case': strip_case(c), 'hashseed': seed, 'impl': r['impl'][:400], 'model': a[:400]})
-        nontrivial = (c['kind'] in ('sorted', 'buildline', 'envhash', 'cheader', 'optsort', 'buildopts', 'excludes', 'testser', 'depfile')
+        nontrivial = (c['kind'] in ('sorted', 'buildline', 'envhash', 'cheader', 'optsort', 'buildopts', 'excludes', 'testser', 'depfile', 'formatreqs')
                       and r['line'] != '' and len(json.dumps(strip_case(c))) > 60) or c['kind'] == 'fs'
         if nontrivial:
             ctx.seen_nontrivial((c['kind'], json.dumps(strip_case(c), sort_keys=True)))
@@ -647,6 +670,11 @@ def system_layer(ctx: Ctx, root0: str) -> T.Callable[[], None]:
             hist[n] = 'roundtrip'
     for name in names:
         steps = fixed_steps(rng, ctx.deep, hist[name])
+        planf = os.path.join(S.PROJECTS, name, S.PLAN_FILE)
+        if not ctx.deep and os.path.exists(planf):
+            keep = json.load(open(planf)).get('quick_fresh', 4)
+            fresh = [s for s in steps if s['kind'] == 'fresh']
+            steps = fresh[:1] + fresh[len(fresh) - (keep - 1):] + [s for s in steps if s['kind'] != 'fresh']
         jobs.append((name, ex.submit(run_fixed, name, root0, steps), {}))
     try:
         from . import projgen
@@ -704,6 +732,18 @@ def run(ctx: Ctx) -> None:
         finish()
     finally:
         S.force_rmtree(root0)
+    from . import c06_sites
+    sites = c06_sites.scan()
+    ctx.extra['unordered_sites_total'] = sites['total']
+    ctx.extra['unordered_sites_driven'] = sites['driven']
+    ctx.extra['unordered_sites_membership_only'] = sites['membership_only']
+    ctx.extra['unordered_sites'] = [{'site': r[0], 'status': {'D': 'driven', 'U': 'not reachable', 'M': 'membership only', '?': 'not reviewed'}[r[1]],
+                                     'by': r[2]} for r in sites['rows'] if r[1] != 'M']
+    for r in sites['unreachable']:
+        ctx.assumptions.append(f'unordered collection not driven by the corpus: {r[0]} — {r[2]}')
+    for r in sites['unclassified']:
+        ctx.assumptions.append(f'unordered collection NOT REVIEWED (new since the table was written): {r[0]}')
+        ctx.notes.append(f'unreviewed unordered-collection site: {r[0]}')
     ctx.assumptions += TRUSTED
     ctx.extra['explanation'] = (
         'Lean proves, for every input, that the modelled emitters (sorted deps/orderdeps of NinjaBuildElement.write, '
